@@ -15,7 +15,7 @@ class C13(CurveCheck):
             "sk/sk_str/sk_dec: 0,1,l-1,l,l+1,2^252..2^256-1 boundaries, random below/above l; hex: upper/mixed case, "
             "odd length, bad characters, 0x prefix; pk/sk run all three acceptance routes (from_slice, TryFrom<&[u8]>, "
             "TryFrom<[u8;32]>) and all printing routes (Display, to_string, Debug); pk_hash (Hashable) on accepted and "
-            "refused keys; viewpair (From<KeyPair>, From<&KeyPair>) on random and boundary scalars; arithmetic: frompriv/add/sub/mul/ident on random operands "
+            "refused keys; txout_key (TxOut::get_one_time_key) on outputs with accepted / refused target keys and malformed outputs; viewpair (From<KeyPair>, From<&KeyPair>) on random and boundary scalars; arithmetic: frompriv/add/sub/mul/ident on random operands "
             "(incl. 0, 1, l-1 and points with torsion components), scalar add/mul/mul-by-u8; pkraw: operators on "
             "unvalidated stored bytes (non-canonical y, negative zero, undecodable -> PANIC is the modelled outcome); "
             "non-trivial = distinct case line")
@@ -91,6 +91,19 @@ class C13(CurveCheck):
             cs.append(Case("pk_hash " + hx(b), "pk_hash"))
         for b in [c for c, cls in pkb if cls in ("negative-zero", "bad-length")][:6] + [le(P + 1)]:
             cs.append(Case("pk_hash " + hx(b), "pk_hash:rejected"))
+        # TxOut::get_one_time_key: the target key of a parsed output, present exactly when from_slice accepts it
+        tk = [(b, cls) for b, cls in pkb if len(b) == 32 and cls in ("noncanonical-y", "negative-zero", "x-zero", "small-order",
+                                                                     "small-order-alias", "valid-signflip")][::3]
+        tk += [(b, "valid") for b in rng.sample(valid_keys, 25 if q else 300)]
+        tk += [(b, cls) for b, cls in pkb if cls == "random-invalid-y"][:10]
+        for j, (b, cls) in enumerate(tk):
+            amount = ed.varint([0, 1, 127, 128, 2**32, 2**64 - 1][j % 6])
+            body = amount + (b"\x02" + b if j % 2 else b"\x03" + b + bytes([rng.getrandbits(8)]))
+            cs.append(Case("txout_key " + hx(body), "txout_key:" + cls))
+        g2 = ed.varint(5) + b"\x02" + G
+        for m in (g2 + b"\x00", g2[:-1], g2[:1], b"", ed.varint(5) + b"\x04" + G, ed.varint(5) + b"\x03" + G,
+                  ed.varint(5) + b"\x00" + G, b"\x80"):
+            cs.append(Case("txout_key " + hx(m), "txout_key:malformed"))
         # consensus form: exact, with trailing bytes, truncated; text form
         sub = [b for b, _ in pkb if len(b) == 32]
         for b in rng.sample(sub, 300 if q else 5000) + rng.sample(valid_keys, 100):
@@ -230,6 +243,25 @@ class C13(CurveCheck):
         if op == "pk_hash":
             b = arg(1)
             return "OK " + hx(ed.keccak256(b)) if okpk(b) else "ERR"
+        if op == "txout_key":
+            b = arg(1)
+            n = i = 0
+            while True:
+                if i >= len(b):
+                    return "ERR"
+                c = b[i]
+                n |= (c & 0x7f) << (7 * i)
+                i += 1
+                if not c & 0x80:
+                    break
+                if i >= 10:
+                    return None
+            if n >= 2**64 or ed.varint(n) != b[:i]:
+                return None                      # varint corner cases belong to C14
+            if i >= len(b) or b[i] not in (2, 3) or len(b) != i + 1 + 32 + (b[i] == 3):
+                return "ERR"
+            k = b[i + 1:i + 33]
+            return "OK " + (hx(k) if okpk(k) else "-")
         if op == "viewpair":
             v, s_ = arg(1), arg(2)
             if not oksk(v) or not oksk(s_):
